@@ -192,6 +192,15 @@ class RecFile:
 
 _WL_COUNT = [0]
 
+# wire-log formats: data only (direction known from the buffer), the class default, a custom one; each can be
+# handed to WireLog(...) / reopen(fmt=...) as bytes or as str (the docstring allows both)
+FMT = {"data": b"%(data)b", "default": b"\n%(dx)b %(who)b:\n%(data)b\n", "custom": b"<%(dx)b|%(who)b|%(data)b>"}
+
+
+def fmt_arg(name, as_str):
+    f = FMT[name]
+    return f.decode() if as_str else f
+
 
 def make_wl(spec, records):
     """Real WireLog (memory buffers, or files under the check's scratch dir) whose buffers record each write.
@@ -208,9 +217,12 @@ def make_wl(spec, records):
         head.mkdir(parents=True, exist_ok=True)
         kw = {"filed": True, "temp": False, "headDirPath": str(head), "name": "c09"}
     if mode == 1:
-        wl = wiring.WireLog(rxed=spec["rxed"], txed=spec["txed"], samed=False, fmt=b"%(data)b", **kw)
+        wl = wiring.WireLog(rxed=spec["rxed"], txed=spec["txed"], samed=False, fmt=fmt_arg("data", spec.get("fmtstr")), **kw)
+    elif spec.get("fmt") or spec.get("fmtstr"):
+        wl = wiring.WireLog(rxed=spec["rxed"], txed=spec["txed"], samed=True,
+                            fmt=fmt_arg(spec.get("fmt") or "default", spec.get("fmtstr")), **kw)
     else:
-        wl = wiring.WireLog(rxed=spec["rxed"], txed=spec["txed"], samed=True, **kw)
+        wl = wiring.WireLog(rxed=spec["rxed"], txed=spec["txed"], samed=True, **kw)      # the class default format
     if spec.get("opened", True):
         wl.reopen()
         wrap_wl(wl, records)
@@ -302,11 +314,10 @@ def parse_records(spec, records, who):
         else:
             done = False
             for d, dx in (("tx", b"Tx"), ("rx", b"Rx")):
-                pre = b"\n" + dx + b" " + who + b":\n"
-                if b.startswith(pre) and b.endswith(b"\n") and len(b) >= len(pre) + 1:
-                    out.append([d, b[len(pre):-1].hex()])
-                    done = True
-                    break
+                for pre, suf in ((b"\n" + dx + b" " + who + b":\n", b"\n"), (b"<" + dx + b"|" + who + b"|", b">")):
+                    if not done and b.startswith(pre) and b.endswith(suf) and len(b) >= len(pre) + len(suf):
+                        out.append([d, b[len(pre):len(b) - len(suf)].hex()])
+                        done = True
             if not done:
                 out.append(["bad", b.hex()])
     return out
@@ -375,7 +386,10 @@ def run_impl(case):
                     elif op[1] == "exit":
                         doer.exit()
                     else:
-                        wl.reopen(**{a: b for a, b in op[2].items() if b is not None})
+                        kw = {a: b for a, b in op[2].items() if b is not None and a != "fmtstr"}
+                        if kw.get("fmt"):
+                            kw["fmt"] = fmt_arg(kw["fmt"], op[2].get("fmtstr"))
+                        wl.reopen(**kw)
                         wrap_wl(wl, records)
             else:
                 raise AssertionError("bad op " + repr(op))
@@ -679,6 +693,14 @@ def directed():
             ["tx", p1], ["sends", ["acc", 4]], ["recvs", [["data", "0102"], ["data", "0304", "dead"], blk]],
             ["sends", ["acc", 2]], ["once", ["data", "05"]], ["recvs", [["data", "06"], fault_ans(kind, errno.ECONNRESET)]],
             ["sends", ["acc", 2]]]})
+        # the format handed over as str or bytes, at construction and at reopen(fmt=...): data-only, default, custom
+        for spec in ({"mode": 1, "fmtstr": True}, {"mode": 2, "fmtstr": True}, {"mode": 2, "fmt": "custom"},
+                     {"mode": 2, "fmt": "custom", "fmtstr": True}):
+            traffic = lambda: [["sends", ["acc", 2]], ["recvs", [["data", "0a0b"], blk]], ["service", ["acc", 1], [["data", "0c"]]]]
+            ops = [["tx", big[:60]]] + traffic()
+            for name, as_str in (("custom", True), ("default", False), ("default", True), ("custom", False)):
+                ops += [["wl", "reopen", {"fmt": "data" if spec["mode"] == 1 else name, "fmtstr": as_str}]] + traffic()
+            out.append({"kind": kind, "conn0": True, "bs": 16, "ops": ops, "wl": dict({"rxed": True, "txed": True}, **spec)})
         # a WireLogDoer owns the attached log: enter with the log already open (must keep it), exit, enter again, with
         # traffic before and after; memory and file-backed; log opened beforehand or by the doer
         for mode in (1, 2):
@@ -723,6 +745,10 @@ def gen_case(rng, tier):
     kind = rng.choice(KINDS)
     bs = rng.choice([1, 4, 16, 64])
     spec = {"mode": rng.choice([0, 1, 1, 2, 2]), "rxed": rng.random() < 0.85, "txed": rng.random() < 0.85}
+    if spec["mode"] and rng.random() < 0.4:
+        spec["fmtstr"] = True            # format given as str
+    if spec["mode"] == 2 and rng.random() < 0.3:
+        spec["fmt"] = "custom"
     if spec["mode"] and rng.random() < 0.15:
         spec["filed"] = True
     if spec["mode"] and rng.random() < 0.1:
@@ -792,6 +818,10 @@ def gen_case(rng, tier):
                 kw = {"rxed": rng.choice([None, True, False]), "txed": rng.choice([None, True, False])}
                 if spec["mode"] == 2:
                     kw["samed"] = rng.choice([None, True, False])
+                    kw["fmt"] = rng.choice([None, None, "default", "custom"])
+                else:
+                    kw["fmt"] = rng.choice([None, None, "data"])
+                kw["fmtstr"] = rng.random() < 0.5
                 ops.append(["wl", "reopen", kw])
         else:
             ops.append(["connect"])
